@@ -9,7 +9,8 @@ consumed by a successful parser; fuel adequacy; iteration and size bounds).  The
 `Model/IO.lean`, `Model/Records.lean`, `Model/Reader.lean`, `Model/Writer.lean` (`newAppend`).
 
 What is proved here is proved about the MODEL, for every byte string, every fault index and every
-external decoder that does not itself panic.  The model is tied to the crate by the `read`
+external decoder that does not itself panic.  The model is tied to the crate by translation (Tie/Parsers, ReaderGlue, ReaderGlue2, StreamGlue, Drain, Visit,
+the layer ties: every reader function on the open / by_index / stream paths is generated from the source) and by the `read`
 correspondence stream (outcome classes must agree on liars / truncations / substitutions / random
 bytes, both readers and `new_append`).  Memory in BYTES and wall time are MEASURED by the harness
 (`read.mem` op: counting global allocator, peak during `ZipArchive::new` against `K·len + C`); the
